@@ -339,6 +339,67 @@ static bool builder_cell(Cell c, bool count = true) {
   return ok;
 }
 
+// ------------------------------------------------------------------ a REFUSED setkey leaves the pinned pair in force (both properties)
+// setkey(ok pair) ; setkey(refused pair) -> non-zero ; then the object behaves as configured by the first call: the checker rejects the
+// alg-none token and tokens of other algorithms and accepts the pinned algorithm's token; the builder emits a token signed under the first pair
+static std::string refused_history_case(int prov, int first, int second, int side, std::string *desc) {
+  struct First { const char *key; const char *attr; jwt_alg_t e; jwt_alg_t resolved; };
+  static const First FIRSTS[] = {{"oct64", "HS256", JWT_ALG_NONE, JWT_ALG_HS256}, {"oct64", "", JWT_ALG_HS256, JWT_ALG_HS256}, {"ec_p256", "ES256", JWT_ALG_NONE, JWT_ALG_ES256}, {"ec_p256", "", JWT_ALG_ES256, JWT_ALG_ES256},
+                                 {"rsa_2048", "", JWT_ALG_RS256, JWT_ALG_RS256}, {"rsa_2048", "PS256", JWT_ALG_PS256, JWT_ALG_PS256}, {"ed25519", "", JWT_ALG_EDDSA, JWT_ALG_EDDSA}};
+  const First &f = FIRSTS[first % 7]; const KeySpec &k = POOL.get(f.key);
+  *desc = "{\"kind\":\"refused-setkey\",\"prov\":" + std::to_string(prov) + ",\"first\":" + std::to_string(first) + ",\"second\":" + std::to_string(second) + ",\"side\":" + std::to_string(side) + ",\"key\":\"" + f.key + "\",\"pinned\":\"" + jwt_alg_str(f.resolved) + "\"}";
+  use_provider(prov);
+  JwkOpts o; o.alg = f.attr; o.priv = true; LKey key(jwk_json(k, o)); JwkOpts o2; o2.priv = true; LKey noattr(jwk_json(k, o2)); JwkOpts o3; o3.alg = "HS384"; o3.priv = true; LKey hs384(jwk_json(POOL.get("oct64"), o3));
+  if (!key.ok()) return "";
+  // the refused second call
+  auto second_call = [&](auto setkey) -> int {
+    switch (second % 6) {
+    case 0: return setkey(JWT_ALG_HS256, (const jwk_item_t *)nullptr);          // algorithm without key
+    case 1: return setkey(JWT_ALG_ES384, (const jwk_item_t *)nullptr);
+    case 2: return setkey(JWT_ALG_HS512, (const jwk_item_t *)hs384.item);       // key says HS384, caller says HS512
+    case 3: return setkey(JWT_ALG_NONE, (const jwk_item_t *)noattr.item);       // key without alg attribute and no algorithm
+    case 4: return setkey(f.resolved == JWT_ALG_HS256 ? JWT_ALG_ES256 : JWT_ALG_HS256, (const jwk_item_t *)key.item);   // the same key with an algorithm of another family / other than its attribute
+    default: return setkey(JWT_ALG_INVAL, (const jwk_item_t *)key.item);
+    } };
+  std::string hdr = std::string("{\"alg\":\"") + jwt_alg_str(f.resolved) + "\"}", good = ref_token(k, f.resolved, hdr, PAYLOAD), none = b64u_enc("{\"alg\":\"none\"}") + "." + b64u_enc(PAYLOAD) + ".";
+  std::string other = ref_token(POOL.get("oct64"), JWT_ALG_HS384, "{\"alg\":\"HS384\"}", PAYLOAD);
+  std::string bad;
+  if (side == 0) {
+    jwt_checker_t *ch = jwt_checker_new();
+    if (!jwt_checker_setkey(ch, f.e, key.item)) {
+      int r2 = second_call([&](jwt_alg_t a, const jwk_item_t *it) { return jwt_checker_setkey(ch, a, it); });
+      if (r2 != 0) { stats().cls("refused-setkey-after-an-accepted-one");
+        if (jwt_checker_verify(ch, none.c_str()) == 0) bad = "checker-accepts-alg-none-token-after-a-refused-setkey";
+        else if (jwt_checker_verify(ch, other.c_str()) == 0) bad = "checker-accepts-other-algorithm-after-a-refused-setkey";
+        else if (!(prov == 1 && f.resolved == JWT_ALG_ES256K) && jwt_checker_verify(ch, good.c_str()) != 0) bad = "checker-rejects-the-pinned-algorithm's-token-after-a-refused-setkey"; }
+    }
+    jwt_checker_free(ch);
+  } else {
+    jwt_builder_t *b = jwt_builder_new();
+    if (!jwt_builder_setkey(b, f.e, key.item)) {
+      int r2 = second_call([&](jwt_alg_t a, const jwk_item_t *it) { return jwt_builder_setkey(b, a, it); });
+      if (r2 != 0) { stats().cls("refused-setkey-after-an-accepted-one"); jwt_builder_error_clear(b);
+        char *t = jwt_builder_generate(b);
+        if (!t) bad = "builder-emits-nothing-after-a-refused-setkey";
+        else { TokParts tp = split_token(t); std::string an; header_alg(tp, an);
+          if (tp.s.empty() || an == "none") bad = "builder-emits-unsigned-token-after-a-refused-setkey";
+          else if (an != jwt_alg_str(f.resolved) || !ref_valid(k, t)) bad = "builder-emits-token-of-another-pair-after-a-refused-setkey"; }
+        free(t); }
+    }
+    jwt_builder_free(b);
+  }
+  return bad;
+}
+static bool refused_history(int prov, int w, int W) {
+  Stats &st = stats(); int idx = 0;
+  for (int first = 0; first < 7; first++) for (int second = 0; second < 6; second++) for (int side = 0; side < 2; side++) {
+    if ((idx++ % W) != w) continue;
+    std::string d, r = refused_history_case(prov, first, second, side, &d); st.evaluations++; st.cls("setkey-history-cells"); st.nontrivial(mix(fnv("refused"), mix(prov * 2 + side, first * 8 + second)));
+    if (!r.empty()) { st.violation(std::string(PID()) + ":" + r, "a refused setkey call changed the configuration: " + d, d); return false; }
+  }
+  return true;
+}
+
 // ------------------------------------------------------------------ C03 extras: token shapes
 static bool c03_shapes(int prov, int w, int W) {
   Stats &st = stats(); bool ok = true;
@@ -424,6 +485,7 @@ int main(int argc, char **argv) {
     J j = J::parse(read_file(a.replay)); if (!j) return 2;
     auto gi = [&](const char *k) { return (int)json_integer_value(json_object_get(j.p, k)); };
     const char *kind = json_string_value(json_object_get(j.p, "kind"));
+    if (kind && !strcmp(kind, "refused-setkey")) { std::string d; return refused_history_case(gi("prov"), gi("first"), gi("second"), gi("side"), &d).empty() ? 0 : 3; }
     if (kind && !strcmp(kind, "shape")) {
       // re-run all shapes for that provider (cheap) and report
       bool ok = c03_shapes(gi("prov"), 0, 1); return ok && st.violations.empty() ? 0 : 3;
@@ -481,6 +543,7 @@ int main(int argc, char **argv) {
             if (!builder_cell(c) && st.violations.size() >= 12) goto done;
           }
     }
+    if (!refused_history(prov, w, W)) goto done;
     if (PROP_C03 && !c03_shapes(prov, w, W)) goto done;
   }
 done:
